@@ -3,7 +3,6 @@
 //! recorded as a history of protocol events plus a snapshot of the real wait-for graph after every
 //! macro-step; the Lean driver replays the history on the protocol model (`Rsactor.Net`) and reports
 //! where the two differ.
-#![cfg(feature = "deadlock")]
 
 use crate::rng::Rng;
 use rsactor::{Actor, ActorRef, ActorWeak, Message};
@@ -17,6 +16,8 @@ pub enum Step {
     Gate,
     Panic,
     Ask { target: usize, timeout: Option<u64>, plan: Vec<Step> },
+    /// `j(a2(..),t3:15(..))`: the asks inside are awaited concurrently (join_all) by one hook
+    Join(Vec<Step>),
 }
 
 pub fn parse_plan(s: &str) -> Option<Vec<Step>> {
@@ -33,6 +34,19 @@ pub fn parse_plan(s: &str) -> Option<Vec<Step>> {
                     *i += 1
                 }
                 ',' | '-' => *i += 1,
+                'j' => {
+                    *i += 1;
+                    if cs.get(*i) != Some(&'(') {
+                        return None;
+                    }
+                    *i += 1;
+                    let inner = go(cs, i)?;
+                    if cs.get(*i) != Some(&')') {
+                        return None;
+                    }
+                    *i += 1;
+                    out.push(Step::Join(inner));
+                }
                 'a' | 't' => {
                     let timed = cs[*i] == 't';
                     *i += 1;
@@ -125,6 +139,31 @@ impl Drop for WaitFlag<'_> {
     }
 }
 
+async fn do_ask(sh: &Arc<Shared>, me: usize, target: usize, timeout: Option<u64>, plan: Vec<Step>) {
+    let mid = sh.next_mid.fetch_add(1, SeqCst);
+    let r = sh.peers.lock().unwrap().get(target - 1).cloned().flatten();
+    let Some(r) = r else { return };
+    sh.log(format!("N askStart {me} {target} {mid}"));
+    let res = match timeout {
+        None => r.ask(Run { mid, plan }).await,
+        Some(d) => r.ask_with_timeout(Run { mid, plan }, Duration::from_millis(d)).await,
+    };
+    let txt = match &res {
+        Ok(v) => {
+            if *v != mid {
+                "wrongreply"
+            } else {
+                "ok"
+            }
+        }
+        Err(rsactor::Error::Receive { .. }) => "receive",
+        Err(rsactor::Error::Timeout { .. }) => "timeout",
+        Err(rsactor::Error::Send { .. }) => "send",
+        Err(_) => "other",
+    };
+    sh.log(format!("N askRet {me} {mid} {txt}"));
+}
+
 impl Message<Run> for Peer {
     type Reply = u64;
     async fn handle(&mut self, m: Run, _: &ActorRef<Self>) -> u64 {
@@ -143,29 +182,16 @@ impl Message<Run> for Peer {
                     sh.log(format!("N hEnd {me} {} panic", m.mid));
                     panic!("scripted panic in peer handler");
                 }
-                Step::Ask { target, timeout, plan } => {
-                    let mid = sh.next_mid.fetch_add(1, SeqCst);
-                    let r = sh.peers.lock().unwrap().get(target - 1).cloned().flatten();
-                    let Some(r) = r else { continue };
-                    sh.log(format!("N askStart {me} {target} {mid}"));
-                    let res = match timeout {
-                        None => r.ask(Run { mid, plan }).await,
-                        Some(d) => r.ask_with_timeout(Run { mid, plan }, Duration::from_millis(d)).await,
-                    };
-                    let txt = match &res {
-                        Ok(v) => {
-                            if *v != mid {
-                                "wrongreply"
-                            } else {
-                                "ok"
-                            }
-                        }
-                        Err(rsactor::Error::Receive { .. }) => "receive",
-                        Err(rsactor::Error::Timeout { .. }) => "timeout",
-                        Err(rsactor::Error::Send { .. }) => "send",
-                        Err(_) => "other",
-                    };
-                    sh.log(format!("N askRet {me} {mid} {txt}"));
+                Step::Ask { target, timeout, plan } => do_ask(&sh, me, target, timeout, plan).await,
+                Step::Join(items) => {
+                    let futs: Vec<_> = items
+                        .into_iter()
+                        .filter_map(|it| match it {
+                            Step::Ask { target, timeout, plan } => Some(do_ask(&sh, me, target, timeout, plan)),
+                            _ => None,
+                        })
+                        .collect();
+                    futures::future::join_all(futs).await;
                 }
             }
         }
@@ -179,10 +205,22 @@ pub struct NetOut {
     pub trace: Vec<String>,
 }
 
+#[cfg(feature = "deadlock")]
+fn poisoned() -> bool {
+    rsactor::verif_hooks::wait_for_poisoned()
+}
+#[cfg(not(feature = "deadlock"))]
+fn poisoned() -> bool {
+    false
+}
+
 fn snapshot(sh: &Shared) -> String {
     let ids = sh.ids.lock().unwrap().clone();
     let idx = |id: u64| ids.iter().position(|x| *x == id).map(|p| (p + 1).to_string()).unwrap_or_else(|| format!("?{id}"));
+    #[cfg(feature = "deadlock")]
     let e = rsactor::verif_hooks::wait_for_edges();
+    #[cfg(not(feature = "deadlock"))]
+    let e: Vec<(u64, u64)> = vec![];
     // only edges whose caller belongs to this world (the graph is process-global)
     let mine: Vec<String> = e.iter().filter(|(a, _)| ids.contains(a)).map(|(a, b)| format!("{}>{}", idx(*a), idx(*b))).collect();
     if mine.is_empty() {
@@ -223,8 +261,12 @@ pub fn run_with<F: FnMut(usize, &[bool]) -> Option<String>>(mut next_line: F) ->
                         gates: (0..n).map(|_| Semaphore::new(0)).collect(),
                         waiting: (0..n).map(|_| AtomicBool::new(false)).collect(),
                     });
+                    let cap: Option<usize> = ws.iter().find_map(|w| w.strip_prefix("cap=")).and_then(|x| x.parse().ok()).filter(|c| *c > 0);
                     for i in 1..=n {
-                        let (r, jh) = rsactor::spawn::<Peer>((i, sh.clone()));
+                        let (r, jh) = match cap {
+                            Some(c) => rsactor::spawn_with_mailbox_capacity::<Peer>((i, sh.clone()), c),
+                            None => rsactor::spawn::<Peer>((i, sh.clone())),
+                        };
                         sh.ids.lock().unwrap().push(r.identity().id);
                         sh.peers.lock().unwrap().push(Some(r));
                         let sh2 = sh.clone();
@@ -309,7 +351,7 @@ pub fn run_with<F: FnMut(usize, &[bool]) -> Option<String>>(mut next_line: F) ->
             if let Some(sh) = &shared {
                 trace.extend(std::mem::take(&mut *sh.log.lock().unwrap()));
                 trace.push(format!("N graph {}", snapshot(sh)));
-                trace.push(format!("N poisoned {}", rsactor::verif_hooks::wait_for_poisoned()));
+                trace.push(format!("N poisoned {}", poisoned()));
             }
             trace.push("--".into());
         }
@@ -326,7 +368,7 @@ pub fn run_with<F: FnMut(usize, &[bool]) -> Option<String>>(mut next_line: F) ->
             trace.push("> end".into());
             trace.extend(std::mem::take(&mut *sh.log.lock().unwrap()));
             trace.push(format!("N graph {}", snapshot(sh)));
-            trace.push(format!("N poisoned {}", rsactor::verif_hooks::wait_for_poisoned()));
+            trace.push(format!("N poisoned {}", poisoned()));
             trace.push("--".into());
         }
     });
@@ -340,32 +382,78 @@ pub struct NetGen {
     pub len: usize,
     pub emitted: usize,
     closing: u32,
+    /// only ask "upwards" (a handler of peer i asks peers j > i): no ask cycle can ever form
+    pub acyclic: bool,
+    /// hooks may await several asks concurrently (`j(..)` steps)
+    pub joins: bool,
 }
 
 impl NetGen {
     pub fn new(seed: u64) -> Self {
         let mut rng = Rng::new(seed);
         let len = 8 + rng.below(30) as usize;
-        NetGen { rng, len, emitted: 0, closing: 0 }
+        NetGen { rng, len, emitted: 0, closing: 0, acyclic: false, joins: false }
     }
 
-    fn plan(&mut self, n: usize, depth: u32) -> String {
+    pub fn new_acyclic(seed: u64) -> Self {
+        let mut g = Self::new(seed);
+        g.acyclic = true;
+        g
+    }
+
+    fn target(&mut self, n: usize, me: usize) -> Option<usize> {
+        if self.acyclic {
+            if me >= n {
+                return None;
+            }
+            Some(me + 1 + self.rng.below((n - me) as u64) as usize)
+        } else {
+            Some(1 + self.rng.below(n as u64) as usize)
+        }
+    }
+
+    fn plan_in(&mut self, n: usize, me: usize) -> String {
+        self.plan_at(n, 0, me)
+    }
+
+    fn plan_at(&mut self, n: usize, depth: u32, me: usize) -> String {
         let mut parts: Vec<String> = vec![];
         let k = self.rng.below(3);
         for _ in 0..k {
+            if self.joins && depth < 3 && self.rng.chance(1, 4) {
+                let mut items = vec![];
+                for _ in 0..(2 + self.rng.below(2)) {
+                    if let Some(t) = self.target(n, me) {
+                        let inner = self.plan_at(n, depth + 1, t);
+                        if self.rng.chance(1, 4) {
+                            items.push(format!("t{t}:{}({inner})", self.rng.pick(&[5u64, 15, 25])));
+                        } else {
+                            items.push(format!("a{t}({inner})"));
+                        }
+                    }
+                }
+                if !items.is_empty() {
+                    parts.push(format!("j({})", items.join(",")));
+                    continue;
+                }
+            }
             match self.rng.weighted(&[4, if depth < 4 { 5 } else { 0 }, if depth < 4 { 2 } else { 0 }, 1]) {
                 0 => parts.push("g".into()),
-                1 => {
-                    let t = 1 + self.rng.below(n as u64) as usize;
-                    let inner = self.plan(n, depth + 1);
-                    parts.push(format!("a{t}({inner})"));
-                }
-                2 => {
-                    let t = 1 + self.rng.below(n as u64) as usize;
-                    let d = *self.rng.pick(&[5u64, 15, 25]);
-                    let inner = self.plan(n, depth + 1);
-                    parts.push(format!("t{t}:{d}({inner})"));
-                }
+                1 => match self.target(n, me) {
+                    Some(t) => {
+                        let inner = self.plan_at(n, depth + 1, t);
+                        parts.push(format!("a{t}({inner})"));
+                    }
+                    None => parts.push("g".into()),
+                },
+                2 => match self.target(n, me) {
+                    Some(t) => {
+                        let d = *self.rng.pick(&[5u64, 15, 25]);
+                        let inner = self.plan_at(n, depth + 1, t);
+                        parts.push(format!("t{t}:{d}({inner})"));
+                    }
+                    None => parts.push("g".into()),
+                },
                 _ => {
                     if self.rng.chance(1, 4) {
                         parts.push("p".into())
@@ -386,7 +474,12 @@ impl NetGen {
         if n == 0 {
             if self.emitted == 0 {
                 self.emitted = 1;
-                return Some(format!("spawn {}", 2 + self.rng.below(4)));
+                let n = 2 + self.rng.below(4);
+                // a third of the worlds have tiny mailboxes: asks park in the send
+                return Some(match self.rng.below(3) {
+                    0 => format!("spawn {n} cap={}", 1 + self.rng.below(2)),
+                    _ => format!("spawn {n}"),
+                });
             }
             return None;
         }
@@ -407,9 +500,19 @@ impl NetGen {
         }
         let waiting_ids: Vec<usize> = waiting.iter().enumerate().filter(|(_, w)| **w).map(|(i, _)| i + 1).collect();
         Some(match self.rng.weighted(&[8, 3, 3, if waiting_ids.is_empty() { 0 } else { 10 }, 2, 1]) {
-            0 => format!("ask {} {}", 1 + self.rng.below(n as u64), self.plan(n, 0)),
-            1 => format!("tell {} {}", 1 + self.rng.below(n as u64), self.plan(n, 0)),
-            2 => format!("askt {} {} {}", 1 + self.rng.below(n as u64), self.rng.pick(&[15u64, 25, 45]), self.plan(n, 0)),
+            0 => {
+                let t = 1 + self.rng.below(n as u64) as usize;
+                format!("ask {t} {}", self.plan_in(n, t))
+            }
+            1 => {
+                let t = 1 + self.rng.below(n as u64) as usize;
+                format!("tell {t} {}", self.plan_in(n, t))
+            }
+            2 => {
+                let t = 1 + self.rng.below(n as u64) as usize;
+                let d = *self.rng.pick(&[15u64, 25, 45]);
+                format!("askt {t} {d} {}", self.plan_in(n, t))
+            }
             3 => format!("gate {}", self.rng.pick(&waiting_ids)),
             4 => "tick".into(),
             _ => format!("kill {}", 1 + self.rng.below(n as u64)),
